@@ -10,7 +10,8 @@
 EXTENDS Integers, Sequences, FiniteSets, TLC, Json
 
 \* shapes: <<"header", k>> | <<"series", n>> | <<"points", c>> | <<"point">> | <<"value">> | <<"timestamp">> | <<"duration">>
-Shapes == {<<"header", k>> : k \in 1..3} \cup {<<"series", n>> : n \in 0..3} \cup {<<"points", c>> : c \in 0..3}
+CONSTANT MaxCount      \* headers of 1..MaxCount archives, series / point lists of 0..MaxCount elements
+Shapes == {<<"header", k>> : k \in 1..MaxCount} \cup {<<"series", n>> : n \in 0..MaxCount} \cup {<<"points", c>> : c \in 0..MaxCount}
           \cup {<<"point">>, <<"value">>, <<"timestamp">>, <<"duration">>}
 
 FixedPart(s) == CASE s[1] = "header" -> 16 [] s[1] = "series" -> 12 [] s[1] = "points" -> 8
